@@ -5,6 +5,7 @@ import Tmv.Lemmas.MerkleDepth
 import Tmv.Model.PartSet
 import Tmv.Model.TxProof
 import Tmv.Lemmas.PartReader
+import Tmv.Lemmas.PartCons
 /-! # C10 — Block parts and Merkle proofs bind content to position
 Property theorems only. `H` is an arbitrary function; the only thing assumed about it is a fixed
 output length `L > 0` (true of SHA-256, needed to split `l ++ r`). Soundness theorems conclude
@@ -705,6 +706,49 @@ theorem kept_set_reads_committed (L : Nat) (hL : 0 < L) (hlen : ∀ x, (H x).len
   · left
     rw [(reader_any_schedule _ sizes hp).1, ha]
   · right; exact hc
+
+
+/-! ## The consumer: what consensus hands to the block decoder -/
+
+/-- `State.addProposalBlockPart` behind the reactor's `ValidateBasic`, over ANY sequence of block
+part messages (any heights, rounds, orders, repetitions, junk, oversized sets): once the state
+expects the parts of the header `(pieces.length, root pieces)`, the only byte string it ever hands
+to the block decoder is the concatenation of the committed pieces — so the block it votes on is the
+one the header commits to — unless one of the offered parts collides with a node of the real tree. -/
+theorem cons_block_is_committed (L : Nat) (hL : 0 < L) (hlen : ∀ x, (H x).length = L)
+    (pieces : List Bytes) (hne : pieces ≠ []) (h maxBytes : Int) (msgs : List (Int × Int × Part))
+    (b : Bytes)
+    (hb : (consRun H (PartsState.mk h maxBytes (some (fromHeader pieces.length (root H pieces))) none)
+        msgs).block = some b) :
+    b = pieces.flatten ∨
+      ∃ m ∈ msgs, CollisionIn H (partPre H pieces.length m.2.2) (rootPre H pieces.length pieces) := by
+  have hinv := consRun_inv H (fromHeader pieces.length (root H pieces)) (msgs.map (·.2.2)) msgs
+    (PartsState.mk h maxBytes (some (fromHeader pieces.length (root H pieces))) none)
+    (fun m hm => List.mem_map.mpr ⟨m, hm, rfl⟩)
+    ⟨⟨[], by simp, rfl⟩, by intro b hb; cases hb⟩
+  obtain ⟨acc', hacc', hcomp, hasm⟩ := hinv.2 b hb
+  rcases complete_reassembles_leaves_traced H L hL hlen pieces hne acc' hcomp with ⟨_, ha⟩ | ⟨p, hp, hc⟩
+  · left; rw [hasm]; exact ha
+  · right
+    obtain ⟨m, hm, hmp⟩ := List.mem_map.mp (hacc' p hp)
+    exact ⟨m, hm, by rw [hmp]; exact hc⟩
+
+/-- A part that fails the reactor's `ValidateBasic`, or is for another height, changes nothing. -/
+theorem cons_ignores_invalid (s : PartsState) (h r : Int) (p : Part)
+    (hbad : h < 0 ∨ r < 0 ∨ (partValidateBasic p ≠ .ok ()) ∨ s.height ≠ h) :
+    (consAddPart H s h r p).1 = s := by
+  unfold consAddPart
+  split; · rfl
+  rename_i hneg
+  split; · rfl
+  rename_i hv
+  split; · rfl
+  rename_i hh
+  rcases hbad with h1 | h1 | h1 | h1
+  · exact absurd (Or.inl h1) hneg
+  · exact absurd (Or.inr h1) hneg
+  · exact absurd hv h1
+  · exact absurd h1 hh
 
 /-! Non-vacuity of the reader theorems: a set with an empty part in the middle, read 2 bytes at a time. -/
 example : rdSeq [2, 2, 2] [1] [[], [2, 3], []] = [([1, 2], false), ([3], true), ([], true)] := by decide
